@@ -1,3 +1,4 @@
+#![allow(unreachable_pub, dead_code, missing_docs, unused_imports, unused_variables, unused_mut, static_mut_refs, clippy::all)]
 // cfg(kani)-only support module of iroh-base (hooked in as `pub mod verif_support`):
 // crypto oracles used as Kani stubs by the harnesses of every crate. Only iroh-base depends on
 // curve25519-dalek / ed25519-dalek, so the crates and the stub functions are re-exported here.
